@@ -7,6 +7,7 @@ import (
 	"bytes"
 	"context"
 	"fmt"
+	"github.com/ipfs/go-unixfsnode"
 	"github.com/ipfs/go-unixfsnode/data"
 	"github.com/ipfs/go-unixfsnode/file"
 	"github.com/ipfs/go-unixfsnode/hamt"
@@ -282,6 +283,14 @@ func TestC17_P_ConcurrentReads(t *testing.T) {
 				// kind (a plain directory). Concurrent users get the errors (and results) they get alone
 				if shards := tree.ShardsPreOrder(); len(shards) > 0 {
 					other, _, err := buildDir(st, []entrySpec{entryFor("x", 0), entryFor("y", 0)})
+					if err == nil && rapid.Bool().Draw(t, "damagedByAShardOfAnotherFanout") {
+						// ... or a perfectly valid shard, of a directory with another fanout
+						var oes []entrySpec
+						for i := 0; i < 40; i++ {
+							oes = append(oes, entryFor(fmt.Sprintf("other-%02d", i), 0))
+						}
+						other, _, err = buildSharded(st, oes, map[int]int{8: 16, 16: 256, 256: 16, 512: 8, 1024: 8}[tree.Fanout])
+					}
 					if err != nil {
 						t.Fatalf("harness: %v", err)
 					}
@@ -376,6 +385,9 @@ func TestC17_P_ConcurrentReads(t *testing.T) {
 		if strings.HasPrefix(kind, "file") && kind != "file-slowroot" && len(st.Missing) == 0 && rapid.IntRange(0, 2).Draw(t, "preloadedFile") == 0 {
 			reifier = "unixfs-preload"
 		}
+		viaNodeReifier := (kind == "file" || kind == "file-wide") && len(content) <= 400 && reifier == "unixfs" && !overReified && rapid.IntRange(0, 3).Draw(t, "viaNodeReifier") == 0
+		lsNR := *ls
+		lsNR.NodeReifier = unixfsnode.Reify
 		fresh := func() datamodel.Node {
 			if kind == "file-slowroot" {
 				pn, err := loadPlain(ls, root)
@@ -385,6 +397,14 @@ func TestC17_P_ConcurrentReads(t *testing.T) {
 				n, err := file.NewUnixFSFile(sessionCtx, slowNode{pn}, ls)
 				if err != nil {
 					t.Fatalf("harness: NewUnixFSFile over a caller-implemented root: %v", err)
+				}
+				return n
+			}
+			if viaNodeReifier {
+				// the caller's link system reifies what it loads (NodeReifier set): one such link system serves every user
+				n, err := lsNR.Load(lcS, cidLink(root), protoForCid(root))
+				if err != nil {
+					t.Fatalf("harness: load through a reifying link system: %v", err)
 				}
 				return n
 			}
